@@ -1122,6 +1122,19 @@ func (s *c15Sim) genUpload(l *c15Log, force string) *c15Req {
 			j = 1 + c15Uniform(rt, "pkgIdxCut", len(pk)-1)
 		}
 	}
+	if r.bodyKind == "wrongentry" {
+		// wrong entries inside a package the mirror has seen before (a full tile at or below its next entry, replayed by
+		// a request that starts behind it): the mirror must authenticate replayed packages like new ones
+		var replayed []int
+		for i, p := range pk {
+			if p[2] <= st.next && p[2]-p[1] == 256 {
+				replayed = append(replayed, i)
+			}
+		}
+		if len(replayed) > 0 && c15Uniform(rt, "wrongInReplayed", 3) > 0 {
+			j = replayed[c15Uniform(rt, "wrongReplayedIdx", len(replayed))]
+		}
+	}
 	switch r.bodyKind {
 	case "cutpkg":
 		if j == 0 && len(pk) > 1 {
